@@ -71,7 +71,11 @@ class Native:
 
 
 def ev(t, model):
-    return T.evaluate(t, _Default(model), FUNS)
+    funs = dict(FUNS)
+    for k, v in (model or {}).items():
+        if isinstance(v, dict):
+            funs[k] = (lambda d: (lambda i: d.get(i, d.get(str(i), 0))))(v)
+    return T.evaluate(t, _Default(model), funs)
 
 
 class _Default(dict):
